@@ -43,7 +43,8 @@ func mutateStream(rng *rand.Rand) []byte {
 		p := randValidInbound(rng)
 		b = append(b, p[:rng.Intn(len(p))]...)
 	case 1: // over-long length field
-		b = append(b, 0x30, 0x80|byte(rng.Intn(128)), 0x80|byte(rng.Intn(128)), 0x80|byte(rng.Intn(128)), 0x80|byte(rng.Intn(128)), byte(rng.Intn(128)))
+		// fifth length byte kept small: on code without the four-byte bound the request stays below 1 GiB
+		b = append(b, 0x30, 0x80|byte(rng.Intn(128)), 0x80|byte(rng.Intn(128)), 0x80|byte(rng.Intn(128)), 0x80|byte(rng.Intn(128)), byte(1+rng.Intn(2)))
 		b = append(b, randBytes(rng, rng.Intn(8))...)
 	case 2: // non-terminating length field
 		b = append(b, byte(pick(rng, 0x30, 0x40, 0x90)))
@@ -113,7 +114,7 @@ func init() {
 	// ---- rp: readPacket on a byte string ----------------------------------
 	register(&funcEngine{name: "rp",
 		gen: func(rng *rand.Rand, tier string, n int, emit func(string)) {
-			for _, s := range []string{"-", "30", "3000", "3001", "300141", "30ffffffff7f", "30ffffffffffffffffff7f", "308080808001",
+			for _, s := range []string{"-", "30", "3000", "3001", "300141", "30ffffffff01", "30ffffffffffffffffff7f", "308080808001",
 				"30808080", "3080808000", "d000", "20020000", "30ff7f", "3080"} {
 				emit(s)
 			}
